@@ -165,6 +165,7 @@ class Tr:
         self.tags = {}
         self.counter = 0
         self.tmp = 0
+        self.apply_aliases()
         self.mutated = self._mutated_fields()
         # the result type of every term
         parts = (([] if self.ret == "Unit" else [self.ret]) + [self.fields[f] for f in self.mutated]
@@ -1231,6 +1232,31 @@ class Tr:
             ast.fix_missing_locations(st)
         return out
 
+    def apply_aliases(self):
+        """spec["alias"]: attribute chains of other objects read as flat fields / parameters, e.g.
+        {"self._output_info.grid": "self.oi_grid", "info.grid": "info_grid"}; spec["return_unit"]: `return <expr>` of an
+        object that is represented by its fields only becomes a bare `return`"""
+        alias = self.spec.get("alias", {})
+        ret_unit = set(self.spec.get("return_unit", []))
+        if not alias and not ret_unit:
+            return
+
+        class Tx(ast.NodeTransformer):
+            def visit_Attribute(self, node):
+                src = ast.unparse(node)
+                if src in alias:
+                    new = ast.parse(alias[src], mode="eval").body
+                    return ast.copy_location(new, node)
+                return self.generic_visit(node)
+
+            def visit_Return(self, node):
+                if node.value is not None and ast.unparse(node.value) in ret_unit:
+                    return ast.copy_location(ast.Return(value=None), node)
+                return self.generic_visit(node)
+
+        self.fn = Tx().visit(self.fn)
+        ast.fix_missing_locations(self.fn)
+
     def translate(self):
         self.fn.body = self.hoist_walrus(list(self.fn.body))
         env = {}
@@ -1446,6 +1472,15 @@ def driver_source(specs, status, src_root):
                              '(fromJ (argAt args 3)) (fromJ (argAt args 4)) (fromJ (argAt args 5)) (fromJ (argAt args 6)) '
                              '(fun g h => ((fromJ (argAt args 7)) : List (Nat × Option Nat)).contains (g, h)) '
                              '(fun a b => ((fromJ (argAt args 8)) : List (Nat × Nat)).contains (a, b)) ' + me.replace("K", "9") + ")")
+            continue
+        if spec.get("group") == "Exchange":
+            imports.append(f"import FinamModel.Translated.{spec['lean']}")
+            me = ("(fun a b g1 g2 => Except.ok (((fromJ (argAt args 15)) : List ((Option Int × Option Int) × (Option Nat × Option Nat)))"
+                  ".contains ((a, b), (g1, g2))))")
+            if spec["lean"] == "Output_get_info":
+                cases.append('  | "Output_get_info" => toJ (Tr.Output_get_info ' + " ".join(f"(fromJ (argAt args {i}))" for i in range(13))
+                             + ' (fun g h => ((fromJ (argAt args 13)) : List (Nat × Option Nat)).contains (g, h)) '
+                               '(fun a b => ((fromJ (argAt args 14)) : List (Nat × Nat)).contains (a, b)) ' + me + ")")
             continue
         if spec.get("group") == "Units":
             imports.append(f"import FinamModel.Translated.{spec['lean']}")
